@@ -1,6 +1,7 @@
 package props
 
 import (
+	"crypto/md5"
 	"fmt"
 	"os"
 	"path/filepath"
@@ -26,11 +27,21 @@ func mkNode(path, st string) {
 		os.WriteFile(filepath.Join(path, "child"), []byte("x"), 0o644)
 	case strings.HasPrefix(st, "F"):
 		os.RemoveAll(path)
-		os.WriteFile(path, []byte("content-"+st[1:]), 0o644)
+		os.WriteFile(path, []byte(nodeContent(st[1:])), 0o644)
 	}
 }
 
-func dumpDirFS(dir string) string {
+// nodeContent: what a file in state F<id> holds.  F7 is "an older file of the same name that
+// is in the way": it is much longer than anything that replaces it, so a copy that does not
+// truncate its destination leaves a stale tail behind.
+func nodeContent(id string) string {
+	if id == "7" {
+		return "content-7\n" + strings.Repeat("stale line of an earlier, larger build\n", 120)
+	}
+	return "content-" + id
+}
+
+func dumpDirFS(dir string, ctl ...string) string {
 	ents, err := os.ReadDir(dir)
 	if err != nil {
 		return "[]"
@@ -44,14 +55,35 @@ func dumpDirFS(dir string) string {
 			continue
 		}
 		b, _ := os.ReadFile(p)
-		id := "999"
-		if strings.HasPrefix(string(b), "content-") {
-			id = string(b)[8:]
+		// byte-exact: a file counts as F<id> only if it holds exactly what F<id> holds, and
+		// as the control file (F999) only if it holds exactly the control file's text
+		id := fmt.Sprintf("X%x", md5.Sum(b))[:9]
+		if len(ctl) == 1 && string(b) == ctl[0] {
+			id = "999"
+		} else if rest, ok := strings.CutPrefix(string(b), "content-"); ok {
+			if i := strings.IndexByte(rest, '\n'); i >= 0 {
+				rest = rest[:i]
+			}
+			if string(b) == nodeContent(rest) {
+				id = rest
+			}
 		}
 		xs = append(xs, core.Hex(e.Name())+"=F"+id)
 	}
 	sort.Strings(xs)
 	return "[" + strings.Join(xs, ",") + "]"
+}
+
+// fileLine renders one Files line.  The empty name exists only for .changes: its lines are
+// split on single blanks, so two blanks in front of the file name list the empty name.
+func fileLine(kind, name string) string {
+	if kind == "dsc" {
+		return fmt.Sprintf(" d41d8cd98f00b204e9800998ecf8427e 1 %s\n", name)
+	}
+	if name == "" {
+		return " d41d8cd98f00b204e9800998ecf8427e 1 utils optional  stray_1.0.tar.gz\n"
+	}
+	return fmt.Sprintf(" d41d8cd98f00b204e9800998ecf8427e 1 utils optional %s\n", name)
 }
 
 func plainName(n string) bool {
@@ -90,7 +122,7 @@ var uploadImpl = map[string]core.Adapter{
 			if n > 0 {
 				doc.WriteString("Files:\n")
 				for _, nm := range names {
-					fmt.Fprintf(&doc, " d41d8cd98f00b204e9800998ecf8427e 1 %s\n", nm)
+					doc.WriteString(fileLine(kind, nm))
 				}
 			}
 		} else {
@@ -98,7 +130,7 @@ var uploadImpl = map[string]core.Adapter{
 			if n > 0 {
 				doc.WriteString("Files:\n")
 				for _, nm := range names {
-					fmt.Fprintf(&doc, " d41d8cd98f00b204e9800998ecf8427e 1 utils optional %s\n", nm)
+					doc.WriteString(fileLine(kind, nm))
 				}
 			}
 		}
@@ -179,9 +211,9 @@ var uploadImpl = map[string]core.Adapter{
 		}
 		dstDump := "[]"
 		if destKind == "dir" {
-			dstDump = dumpDirFS(dst)
+			dstDump = dumpDirFS(dst, doc.String())
 		}
-		return res + " src" + dumpDirFS(src) + " dst" + dstDump + " handle=" + h + " outside=" + outside
+		return res + " src" + dumpDirFS(src, doc.String()) + " dst" + dstDump + " handle=" + h + " outside=" + outside
 	},
 }
 
@@ -212,11 +244,7 @@ func runUploadSeq(a []string) (string, string) {
 	if n > 0 {
 		doc.WriteString("Files:\n")
 		for _, nm := range names {
-			if kind == "dsc" {
-				fmt.Fprintf(&doc, " d41d8cd98f00b204e9800998ecf8427e 1 %s\n", nm)
-			} else {
-				fmt.Fprintf(&doc, " d41d8cd98f00b204e9800998ecf8427e 1 utils optional %s\n", nm)
-			}
+			doc.WriteString(fileLine(kind, nm))
 		}
 	}
 	ctlPath := filepath.Join(dirs[0], ctl)
@@ -279,7 +307,8 @@ func runUploadSeq(a []string) (string, string) {
 		if t == h {
 			return "unmodelled", "ok"
 		}
-		before := []string{dumpDirFS(dirs[0]), dumpDirFS(dirs[1]), dumpDirFS(dirs[2])}
+		dump := func(d string) string { return dumpDirFS(d, doc.String()) }
+		before := []string{dump(dirs[0]), dump(dirs[1]), dump(dirs[2])}
 		err := run(ops[i], dirs[t])
 		res := "ok"
 		if err != nil {
@@ -287,15 +316,15 @@ func runUploadSeq(a []string) (string, string) {
 		}
 		results = append(results, res)
 		for k := range dirs {
-			if k != h && (k != t || ops[i] == "remove") && dumpDirFS(dirs[k]) != before[k] && verdict == "ok" {
-				verdict = fmt.Sprintf("FAIL step %d (%s from d%d to d%d, %s) changed d%d, which is neither the control file's directory nor the destination: %s -> %s", i/2+1, ops[i], h, t, res, k, before[k], dumpDirFS(dirs[k]))
+			if k != h && (k != t || ops[i] == "remove") && dump(dirs[k]) != before[k] && verdict == "ok" {
+				verdict = fmt.Sprintf("FAIL step %d (%s from d%d to d%d, %s) changed d%d, which is neither the control file's directory nor the destination: %s -> %s", i/2+1, ops[i], h, t, res, k, before[k], dump(dirs[k]))
 			}
 		}
 		if res == "ok" && ops[i] != "remove" && here() != t && verdict == "ok" {
 			verdict = fmt.Sprintf("FAIL step %d (%s to d%d) succeeded but the handle points at %s", i/2+1, ops[i], t, handle())
 		}
 	}
-	return strings.Join(results, ",") + " here=" + strconv.Itoa(here()) + " " + dumpDirFS(dirs[0]) + " " + dumpDirFS(dirs[1]) + " " + dumpDirFS(dirs[2]), verdict
+	return strings.Join(results, ",") + " here=" + strconv.Itoa(here()) + " " + dumpDirFS(dirs[0], doc.String()) + " " + dumpDirFS(dirs[1], doc.String()) + " " + dumpDirFS(dirs[2], doc.String()), verdict
 }
 
 // law-upload is the same run judged against the property directly
@@ -385,6 +414,9 @@ func streamUpload(g *core.G) {
 			if r.Chance(1, 25) {
 				name = r.Pick(weird)
 			}
+			if kind == "changes" && r.Chance(1, 30) {
+				name = "" // two blanks in front of the name: the listed name is empty
+			}
 			if r.Chance(1, 40) {
 				name = ctl // the control file lists itself
 			}
@@ -444,7 +476,7 @@ func init() {
 			"fingerprint:control.Changes.Copy", "fingerprint:control.Changes.Move", "fingerprint:control.Changes.Remove", "fingerprint:control.Changes.AbsFiles", "fingerprint:control.Changes.checkFiles",
 			"fingerprint:control.checkListedFilename", "fingerprint:internal.Copy"},
 		Streams: []core.Stream{{Name: "upload", Gen: streamUpload,
-			Domain: "uploads with 0-4 referenced files x {Copy, Move, Remove} x {.dsc, .changes}; a fault at one position (each referenced file or the control file itself) realised as a file-system state: source missing / an empty or non-empty directory (copy fails after the destination was created), destination name occupied by a file, an empty or a non-empty directory, destination missing or a regular file; listed names incl. '../x', 'a/b', absolute paths, '.', '..', trailing slash, duplicates and the control file's own name; run on a real temporary tree; observables: result, listing of both directories with contents, where the handle points, whether anything outside was touched; law-upload judges the same run against the property"}},
+			Domain: "uploads with 0-4 referenced files x {Copy, Move, Remove} x {.dsc, .changes}; a fault at one position (each referenced file or the control file itself) realised as a file-system state: source missing / an empty or non-empty directory (copy fails after the destination was created), destination name occupied by a file, an empty or a non-empty directory, destination missing or a regular file; listed names incl. '../x', 'a/b', absolute paths, '.', '..', trailing slash, the empty name (.changes line with two blanks), duplicates and the control file's own name; an older, much longer file of the same name already in the destination (1/10; contents compared byte for byte, the control file's too); run on a real temporary tree; observables: result, listing of both directories with contents, where the handle points, whether anything outside was touched; law-upload judges the same run against the property"}},
 		Impl: uploadImpl, TrustedBase: tb,
 		Readable: func(op string, a []string) string {
 			var parts []string
